@@ -150,6 +150,8 @@ type Compiler struct {
 	// evaluation for configd:must statements when using tools that are run
 	// without custom function plugins present (eg yangc / DRAM).
 	userFnChecker xpath.UserCustomFunctionCheckerFn
+	// typedefs whose chain is currently being resolved (cycle detection)
+	typedefsInProgress map[parse.Node]bool
 }
 
 const (
@@ -2402,6 +2404,15 @@ func (c *Compiler) BuildBaseType(
 		return c.makeBuiltinType(cfgNode, typ, tname.Local, def, hasDef, parentStatus), tname, true
 	}
 	c.assertReferenceStatus(typ, refType, parentStatus)
+
+	if c.typedefsInProgress == nil {
+		c.typedefsInProgress = make(map[parse.Node]bool)
+	}
+	if c.typedefsInProgress[refType] {
+		c.error(typ, fmt.Errorf("typedef cyclic reference: %s", typeName))
+	}
+	c.typedefsInProgress[refType] = true
+	defer delete(c.typedefsInProgress, refType)
 
 	typ2 := refType.ChildByType(parse.NodeTyp)
 	tdef := refType.Def()
